@@ -755,6 +755,56 @@ func genStmtFunc(r *prng.R, name string, stateful bool) *Func {
 	return f
 }
 
+// genStateIdiom: the small stateful shapes users actually write, over every numeric type,
+// with a NON-ZERO initialiser and a value that becomes exactly zero at run time: a
+// countdown that stops at zero, "return the previous input", a 0/1 toggle. Only
+// assignments and +-1 on small values are used, so no spec-silent arithmetic is involved.
+func genStateIdiom(r *prng.R, name string) *Func {
+	t := allTyps[r.Intn(len(allTyps))]
+	num := func(x int) *E {
+		if t.IsFloat() {
+			return litFloat(t, fmt.Sprintf("%d.0", x), true)
+		}
+		return litInt(t, uint64(x), true)
+	}
+	f := &Func{Name: name, Ret: t, Stateful: true, Hints: map[string][]Value{}}
+	f.Params = []Param{{Name: "p0", T: t}}
+	val := func(x int) Value {
+		switch {
+		case t == F32:
+			return f32Value(float32(x))
+		case t == F64:
+			return f64Value(float64(x))
+		}
+		return uintValue(t, uint64(x))
+	}
+	k := r.Range(1, 4)
+	sv := mkVar("s0", t)
+	switch r.Intn(3) {
+	case 0: // countdown
+		f.Body = []*S{
+			{K: SState, Name: "s0", T: t, X: num(k)},
+			{K: SIf, X: mkCmp(">", sv, num(0)), Body: []*S{{K: SAssign, Name: "s0", T: t, X: mkArith("-", sv, num(1))}}},
+			{K: SReturn, X: sv},
+		}
+	case 1: // previous input
+		f.Body = []*S{
+			{K: SState, Name: "s0", T: t, X: num(k + 4)},
+			{K: SDecl, Name: "r0", T: t, X: sv},
+			{K: SAssign, Name: "s0", T: t, X: mkVar("p0", t)},
+			{K: SReturn, X: mkVar("r0", t)},
+		}
+		f.Hints["p0"] = []Value{val(0), val(0), val(k + 4), val(1)}
+	default: // toggle
+		f.Body = []*S{
+			{K: SState, Name: "s0", T: t, X: num(1)},
+			{K: SAssign, Name: "s0", T: t, X: mkArith("-", num(1), sv)},
+			{K: SReturn, X: sv},
+		}
+	}
+	return f
+}
+
 var ctlParamTypes = []Typ{I64, I64, I32, I32, U32, U32, U64, U64, U8, I16, I8, U16, F64, F32}
 
 // genCtlFunc: control flow first. An i64 accumulator records the path; the body is a
